@@ -5,6 +5,7 @@ import (
 	"go/token"
 	"go/types"
 	"sort"
+	"strconv"
 	"strings"
 
 	"golang.org/x/tools/go/ssa"
@@ -309,6 +310,12 @@ func (st *taintState) sinksOf(fn *ssa.Function) []TaintSink {
 			}
 			src := st.tainted[bo.Y]
 			lo, hi, why := st.boundsAt(bo.Y, x)
+			// a bound by the remaining bytes does not bound the time the loop takes once the decoder has failed
+			// (reads return at once, `remain` stops moving): only a bound by a constant or 16-bit value does
+			if hi && !boundedByConstant(why) {
+				hi = false
+				why = append(why, "the count is bounded by the remaining bytes only, and nothing in the loop tests the decoder's error state: after a short read it runs for the whole count")
+			}
 			out = append(out, TaintSink{Fn: fn, Ins: ins, Kind: "loop-count", Val: bo.Y, Source: src, Lo: true, Hi: hi, Why: append(why, fmt.Sprintf("lo irrelevant for a trip count (computed %v)", lo))})
 		}
 	})
@@ -436,17 +443,32 @@ func (st *taintState) loopHasStateExit(h *ssa.BasicBlock) bool {
 		if !exits {
 			continue
 		}
+		// The exit must depend on the decoder having failed: once the stream ends early the sticky error is set and
+		// `remain` stops decreasing, so a test of `remain` alone lets the loop run for its whole announced count.
+		// Accepted: a test of the err field, a call of a method that tests it (done()), or — for loops over
+		// something other than the decoder — a length/capacity bound.
 		for _, v := range []ssa.Value{ci.X, ci.Y} {
-			if _, isConst := v.(*ssa.Const); isConst {
+			if _, isConst := v.(*ssa.Const); isConst || v == nil {
 				continue // a comparison with a constant says nothing about the decoder state by itself
-			}
-			if v != nil && st.cfg.IsBoundExpr(v) {
-				return true
 			}
 			if ld, ok := v.(*ssa.UnOp); ok && ld.Op == token.MUL {
 				if fa, ok := ld.X.(*ssa.FieldAddr); ok && FieldName(fa.X.Type(), fa.Field) == "err" {
 					return true
 				}
+			}
+			if c, ok := v.(*ssa.Call); ok {
+				if b, isB := c.Call.Value.(*ssa.Builtin); isB && (b.Name() == "len" || b.Name() == "cap") {
+					return true
+				}
+				if testsErrField(c.Call.StaticCallee()) {
+					return true
+				}
+			}
+		}
+		if ci.Op == token.ILLEGAL {
+			// `for … && !d.done()`: the condition is the (negated) call itself
+			if c, ok := ci.X.(*ssa.Call); ok && testsErrField(c.Call.StaticCallee()) {
+				return true
 			}
 		}
 	}
@@ -729,4 +751,38 @@ func describeBound(v ssa.Value) string {
 		s = s[:40]
 	}
 	return strings.TrimSpace(s)
+}
+
+// testsErrField: a small predicate method whose result depends on the receiver's err field (decoder.done).
+func testsErrField(fn *ssa.Function) bool {
+	if fn == nil || fn.Blocks == nil || fn.Signature.Results().Len() != 1 {
+		return false
+	}
+	if b, ok := fn.Signature.Results().At(0).Type().Underlying().(*types.Basic); !ok || b.Kind() != types.Bool {
+		return false
+	}
+	found := false
+	for _, b := range fn.Blocks {
+		for _, ins := range b.Instrs {
+			if fa, ok := ins.(*ssa.FieldAddr); ok && FieldName(fa.X.Type(), fa.Field) == "err" {
+				found = true
+			}
+		}
+	}
+	return found
+}
+
+func boundedByConstant(why []string) bool {
+	for _, w := range why {
+		if strings.Contains(w, "16-bit") {
+			return true
+		}
+		// "guard t3 <= 16": a comparison with an integer literal
+		if f := strings.Fields(w); len(f) == 4 && f[0] == "guard" && (f[2] == "<=" || f[2] == "<" || f[2] == "==") {
+			if _, err := strconv.ParseInt(f[3], 10, 64); err == nil {
+				return true
+			}
+		}
+	}
+	return false
 }
